@@ -23,6 +23,7 @@ use sudachi::dic::word_id::WordId;
 use sudachi::prelude::*;
 
 const CASES_PER_WORLD: usize = 20;
+const N_DIRECTED: usize = 4;
 const HWL: u32 = 2;
 const SPLIT_A: u32 = 64;
 const SPLIT_B: u32 = 128;
@@ -45,6 +46,12 @@ struct W9 {
     illformed: bool,
     desc: Vec<String>,
     lex_wire: String,
+    /// the same binaries loaded with the first 0, 1, ... path-rewrite plugins only (`stages[k]` has `k` of them; the full
+    /// dictionary is `dic`): their mode-C paths are the paths BETWEEN the plugins, from which the grouping of the joined
+    /// nodes is read (which runs are joined is C14/C15's subject; what the joined node looks like to the splitter is C09's)
+    stages: Vec<JapaneseDictionary>,
+    /// kind of every path-rewrite plugin in configuration order: 'N' JoinNumeric (concat_nodes), 'K' JoinKatakanaOov (concat_oov_nodes)
+    kinds: Vec<char>,
 }
 
 fn mode_char(m: Mode) -> char {
@@ -153,6 +160,51 @@ fn gen_dict(rng: &mut Rng, n_ids: usize, sys: Option<&DictSpec>, uidx: usize) ->
             }
         }
     }
+    // numeral family (system dictionary, every other world): numerals of the numeral part of speech and compound numerals
+    // WITH declared units (二十 = 二/十, 二十万 = B 二十/万, A 二/十/万; 10 = 1/0): JoinNumeric joins runs headed by them
+    if sys.is_none() && rng.chance(1, 2) {
+        let base = d.rows.len();
+        for w in ["二", "十", "万", "1", "0"] {
+            let (l, r, c) = (id(rng), id(rng), atom_cost(rng));
+            d.rows.push(Row::simple(w, l, r, c, NUMERAL));
+        }
+        let num_comp = |rng: &mut Rng, s: &str, a: String, b: String| -> Row {
+            let mut r = Row::simple(s, rng.below(n_ids) as i32, rng.below(n_ids) as i32, comp_cost(rng), if rng.chance(5, 6) { NUMERAL } else { NOUN });
+            r.mode = 'C'; r.split_a = a; r.split_b = b; r
+        };
+        let i = |k: usize| (base + k).to_string();
+        let b1 = if rng.chance(1, 2) { format!("{}/{}", i(0), i(1)) } else { "*".to_string() };
+        let r1 = num_comp(rng, "二十", format!("{}/{}", i(0), i(1)), b1);
+        d.rows.push(r1);                                                            // base + 5
+        let r2 = num_comp(rng, "10", format!("{}/{}", i(3), i(4)), format!("{}/{}", i(3), i(4)));
+        d.rows.push(r2);                                                            // base + 6
+        if rng.chance(2, 3) {
+            let r3 = num_comp(rng, "二十万", format!("{}/{}/{}", i(0), i(1), i(2)), format!("{}/{}", i(5), i(2)));
+            d.rows.push(r3);
+        }
+        if rng.chance(1, 2) {
+            let r4 = num_comp(rng, "十万", format!("{}/{}", i(1), i(2)), "*".into());
+            d.rows.push(r4);
+        }
+    }
+    // katakana family (system dictionary, every other world): katakana compounds WITH declared units next to katakana
+    // the dictionary does not know (OOV): JoinKatakanaOov joins them, the compound at the head, inside or at the END of the run
+    if sys.is_none() && rng.chance(1, 2) {
+        let base = d.rows.len();
+        for w in ["ア", "イ"] {
+            let (l, r, c) = (id(rng), id(rng), atom_cost(rng));
+            d.rows.push(Row::simple(w, l, r, c, NOUN));
+        }
+        let i = |k: usize| (base + k).to_string();
+        let mut r1 = Row::simple("アイ", id(rng), id(rng), comp_cost(rng), NOUN);
+        r1.mode = 'C'; r1.split_a = format!("{}/{}", i(0), i(1)); r1.split_b = if rng.chance(2, 3) { r1.split_a.clone() } else { "*".into() };
+        d.rows.push(r1);                                                            // base + 2
+        if rng.chance(2, 3) {
+            let mut r2 = Row::simple("イアイ", id(rng), id(rng), comp_cost(rng), rng.below(d.pos.len()));
+            r2.mode = 'C'; r2.split_a = format!("{}/{}/{}", i(1), i(0), i(1)); r2.split_b = format!("{}/{}", i(1), i(2));
+            d.rows.push(r2);
+        }
+    }
     for _ in 0..natoms {
         let w = if rng.chance(1, 5) && !d.rows.is_empty() { rng.pick(&d.rows).surface.clone() } else { rand_word(rng, &pool, 2) };
         let mut r = Row::simple(&w, id(rng), id(rng), atom_cost(rng), rng.below(d.pos.len()));
@@ -251,7 +303,7 @@ fn lex_wire(dicts: &[DictSpec], stored: &[Vec<(Vec<u32>, Vec<u32>)>]) -> String 
     }).collect::<Vec<_>>().join(";")
 }
 
-fn build_world(tag: &str, n: usize, matrix: &Matrix, dicts: Vec<DictSpec>, illformed: bool, plugins: (bool, bool, bool), mut desc: Vec<String>) -> Result<W9, String> {
+fn build_world(tag: &str, n: usize, matrix: &Matrix, dicts: Vec<DictSpec>, illformed: bool, plugins: (bool, &[char]), mut desc: Vec<String>) -> Result<W9, String> {
     let wd = Workdir::new(tag);
     let csv = csv_of(&dicts[0].rows, &dicts[0].pos);
     let system = build_system(csv.as_bytes(), matrix.text().as_bytes())?;
@@ -261,8 +313,13 @@ fn build_world(tag: &str, n: usize, matrix: &Matrix, dicts: Vec<DictSpec>, illfo
     }
     let oov = vec![simple_oov_json(0, 0, 9000)];
     let mut pr = vec![];
-    if plugins.1 { pr.push(r#"{"class":"com.worksap.nlp.sudachi.JoinNumericPlugin","enableNormalize":true}"#.to_string()); }
-    if plugins.2 { pr.push(format!(r#"{{"class":"com.worksap.nlp.sudachi.JoinKatakanaOovPlugin","oovPOS":{},"minLength":3}}"#, OOV_POS_JSON)); }
+    for k in plugins.1 {
+        match k {
+            'N' => pr.push(r#"{"class":"com.worksap.nlp.sudachi.JoinNumericPlugin","enableNormalize":true}"#.to_string()),
+            'n' => pr.push(r#"{"class":"com.worksap.nlp.sudachi.JoinNumericPlugin","enableNormalize":false}"#.to_string()),
+            _ => pr.push(format!(r#"{{"class":"com.worksap.nlp.sudachi.JoinKatakanaOovPlugin","oovPOS":{},"minLength":3}}"#, OOV_POS_JSON)),
+        }
+    }
     let _ = n;
     let cfg = config_json(&wd, &input, &oov, &pr, &[]);
     let mut bins = vec![];
@@ -272,6 +329,11 @@ fn build_world(tag: &str, n: usize, matrix: &Matrix, dicts: Vec<DictSpec>, illfo
             let ucsv = csv_of(&d.rows, &d.pos);
             bins.push(build_user(&base, ucsv.as_bytes())?);
         }
+    }
+    let mut stages = vec![];
+    for k in 0..pr.len() {
+        let cfgk = config_json(&wd, &input, &oov, &pr[..k], &[]);
+        stages.push(load(&cfgk, system.clone(), bins.clone())?);
     }
     let dic = load(&cfg, system, bins)?;
     let mut stored = vec![];
@@ -286,9 +348,10 @@ fn build_world(tag: &str, n: usize, matrix: &Matrix, dicts: Vec<DictSpec>, illfo
         stored.push(v);
     }
     desc.push(format!("users:{}", dicts.len() - 1));
-    desc.push(format!("plugins:{}{}{}", if plugins.0 { "D" } else { "-" }, if plugins.1 { "N" } else { "-" }, if plugins.2 { "K" } else { "-" }));
+    desc.push(format!("plugins:{}{}", if plugins.0 { "D" } else { "-" }, if plugins.1.is_empty() { "-".to_string() } else { plugins.1.iter().collect::<String>() }));
     let lw = lex_wire(&dicts, &stored);
-    Ok(W9 { _wd: wd, dic, dicts, stored, illformed, desc, lex_wire: lw })
+    let kinds: Vec<char> = plugins.1.iter().map(|k| if *k == 'K' { 'K' } else { 'N' }).collect();
+    Ok(W9 { _wd: wd, dic, dicts, stored, illformed, desc, lex_wire: lw, stages, kinds })
 }
 
 fn directed_world(which: usize, tag: &str) -> Result<W9, String> {
@@ -313,7 +376,7 @@ fn directed_world(which: usize, tag: &str) -> Result<W9, String> {
         let sys = DictSpec { rows, pos: pos.clone() };
         let u1 = DictSpec { pos: pos.clone(), rows: vec![atom("い"), comp("東京い", 'C', "0/U0", "*"), comp("い都い", 'C', "U0/1/U0", "U0/1/U0")] };
         let u2 = DictSpec { pos: pos.clone(), rows: vec![atom("あ"), atom("ー"), comp("あー", 'C', "U0/U1", "U0/U1"), comp("あー都", 'C', "U0/U1/1", "U2/1")] };
-        build_world(tag, n, &matrix, vec![sys, u1, u2], false, (true, false, false), vec!["directed:wellformed".into()])
+        build_world(tag, n, &matrix, vec![sys, u1, u2], false, (true, &[]), vec!["directed:wellformed".into()])
     } else if which == 2 {
         // two and three user dictionaries, U-references inside the 2nd and 3rd one (re-stamping visible: the builder
         // stores `U<n>` as dictionary 1), the first user dictionary SHORTER than the others and with other words at
@@ -324,18 +387,35 @@ fn directed_world(which: usize, tag: &str) -> Result<W9, String> {
             comp("あーは", 'C', "U0/U1/U2", "U3/U2"), comp("あ都", 'C', "U0/1", "U0/1")] };
         let u3 = DictSpec { pos: pos.clone(), rows: vec![atom("か"), atom("きく"), comp("かきく", 'C', "か,名詞,普通名詞,一般,*,*,*,か/U1", "U0/U1"),
             comp("かきくa", 'C', "U0/U1/2", "U2/2"), atom("𠮷"), comp("𠮷かb", 'C', "U4/U0/3", "U4/U0/3")] };
-        build_world(tag, n, &matrix, vec![sys, u1, u2, u3], false, (true, false, false), vec!["directed:userdicts".into()])
+        build_world(tag, n, &matrix, vec![sys, u1, u2, u3], false, (true, &[]), vec!["directed:userdicts".into()])
+    } else if which == 3 {
+        // numerals and katakana under BOTH path-rewrite plugins: a numeral compound WITH declared units heads a run that
+        // JoinNumeric joins (二十 + 万, 10 + 1), a katakana compound with units is joined with an OOV neighbour by
+        // JoinKatakanaOov; units of units (二十万 = B 二十/万, A 二/十/万).  The joined token is a new word without units:
+        // unchanged in modes A/B, `split_into` reports that nothing was split
+        let num = |s: &str| { let mut r = atom(s); r.pos = NUMERAL; r };
+        let ncomp = |s: &str, a: &str, b: &str| { let mut r = comp(s, 'C', a, b); r.pos = NUMERAL; r };
+        let rows = vec![
+            num("二"), num("十"), num("万"),                                             // 0 1 2
+            ncomp("二十", "0/1", "0/1"), ncomp("十万", "1/2", "*"), ncomp("二十万", "0/1/2", "3/2"), // 3 4 5
+            atom("円"), num("1"), num("0"), ncomp("10", "7/8", "7/8"),                    // 6 7 8 9
+            atom("ア"), atom("イ"), comp("アイ", 'C', "10/11", "10/11"),                   // 10 11 12
+            atom("東京"), atom("都"), comp("東京都", 'C', "13/14", "*"),                   // 13 14 15
+            comp("二十万円", 'C', "0/1/2/6", "5/6"),                                      // 16: a NOUN whose B unit 二十万 is a compound numeral
+        ];
+        let sys = DictSpec { rows, pos };
+        build_world(tag, n, &matrix, vec![sys], false, (true, &['N', 'K']), vec!["directed:numerals+katakana".into()])
     } else {
         // D6: `東` with the A split `東京都/京`
         let rows = vec![atom("東京都"), atom("京"), comp("東", 'C', "0/1", "*"), atom("あ"), comp("あ京", 'C', "6/1", "*"), atom("都"), atom("a")];
         let sys = DictSpec { rows, pos };
-        build_world(tag, n, &matrix, vec![sys], true, (true, false, false), vec!["directed:illformed".into()])
+        build_world(tag, n, &matrix, vec![sys], true, (true, &[]), vec!["directed:illformed".into()])
     }
 }
 
 fn world9(seed: u64, widx: usize) -> Result<W9, String> {
     let tag = format!("C09-w{}", widx);
-    if widx < 3 { return directed_world(widx, &tag); }
+    if widx < N_DIRECTED { return directed_world(widx, &tag); }
     let mut rng = Rng::for_case(seed ^ 0x0909_0909, widx);
     let n = rng.range(2, 4);
     let matrix = Matrix::random(&mut rng, n, n, false);
@@ -351,9 +431,17 @@ fn world9(seed: u64, widx: usize) -> Result<W9, String> {
         let k = rng.below(dicts.len());
         ill = break_dict(&mut rng, &mut dicts[k], k > 0);
     }
-    let plugins = (rng.chance(5, 6), rng.chance(1, 3), rng.chance(1, 3));
-    let desc = vec![if ill { "random:illformed".to_string() } else { "random:wellformed".to_string() }];
-    build_world(&tag, n, &matrix, dicts, ill, plugins, desc)
+    let has_numerals = dicts[0].rows.iter().any(|r| r.surface == "二十");
+    let mut pr: Vec<char> = vec![];
+    if rng.chance(if has_numerals { 3 } else { 1 }, if has_numerals { 4 } else { 3 }) { pr.push(if rng.chance(1, 4) { 'n' } else { 'N' }); }
+    let has_kata = dicts[0].rows.iter().any(|r| r.surface == "アイ" && r.split_a != "*");
+    if rng.chance(if has_kata { 2 } else { 1 }, 3) { pr.push('K'); }
+    if pr.len() == 2 && rng.chance(1, 3) { pr.reverse(); }
+    let dflt = rng.chance(5, 6);
+    let mut desc = vec![if ill { "random:illformed".to_string() } else { "random:wellformed".to_string() }];
+    if has_numerals { desc.push("numeral-compounds-with-units".to_string()); }
+    if has_kata { desc.push("katakana-compounds-with-units".to_string()); }
+    build_world(&tag, n, &matrix, dicts, ill, (dflt, &pr), desc)
 }
 
 // ---------------------------------------------------------------------------------------------
@@ -387,6 +475,25 @@ fn gen_text9(rng: &mut Rng, w: &W9) -> String {
     for _ in 0..n {
         let d = &w.dicts[rng.below(w.dicts.len())];
         let comps: Vec<&Row> = d.rows.iter().filter(|r| r.split_a != "*" || r.split_b != "*").collect();
+        // a compound numeral with declared units at the head (or inside) of a run of numerals
+        let nums: Vec<&Row> = w.dicts[0].rows.iter().filter(|r| r.split_a != "*" && ["二十", "10", "二十万", "十万"].contains(&r.surface.as_str())).collect();
+        if !nums.is_empty() && rng.chance(1, 4) {
+            if rng.chance(1, 4) { s.push(*rng.pick(&['二', '1', '3', '百'])); }
+            let k = rng.pick(&nums).surface.clone();
+            s.push_str(&denorm(rng, &k));
+            for _ in 0..rng.below(3) { s.push(*rng.pick(&['万', '二', '十', '1', '0', '１', '3', '千', ',', '.'])); }
+            if rng.chance(1, 3) { s.push(*rng.pick(&['円', '、', 'ア'])); }
+            continue;
+        }
+        let katas: Vec<&Row> = w.dicts[0].rows.iter().filter(|r| r.split_a != "*" && ["アイ", "イアイ"].contains(&r.surface.as_str())).collect();
+        if !katas.is_empty() && rng.chance(1, 5) {
+            for _ in 0..rng.below(3) { s.push(*rng.pick(&['ウ', 'カ', 'ｶ', 'ー', 'ン'])); }
+            let k = rng.pick(&katas).surface.clone();
+            s.push_str(&denorm(rng, &k));
+            for _ in 0..rng.below(3) { s.push(*rng.pick(&['ウ', 'カ', 'ｳ', 'ア', 'ン'])); }
+            if rng.chance(1, 3) { s.push(*rng.pick(&['円', '、', '二'])); }
+            continue;
+        }
         match rng.below(10) {
             0..=5 if !comps.is_empty() => { let k = rng.pick(&comps).surface.clone(); s.push_str(&denorm(rng, &k)); }
             6 | 7 => { let k = rng.pick(&d.rows).surface.clone(); s.push_str(&denorm(rng, &k)); }
@@ -540,12 +647,20 @@ struct T9 {
     dict_form: String,
     headword: String,
     hwl: usize,
+    /// `a_unit_split()` / `b_unit_split()` of the loaded word info (raw ids)
+    a: Vec<u32>,
+    b: Vec<u32>,
 }
 
 impl T9 {
+    /// ranges and word id (what the oracle compares between routes whose subsets differ)
     fn wire(&self) -> String {
         let sf = match self.srange { Some((a, b)) => format!("{}:{}", a, b), None => "P".to_string() };
         format!("{}:{}:{}:{}:{}:{}:{}:{}", self.cb, self.ce, self.bb, self.be, self.wid, self.ob, self.oe, sf)
+    }
+    /// what the model must reproduce: ranges, word id AND the loaded word info as far as splitting looks at it
+    fn wire_full(&self) -> String {
+        format!("{}:{}:{}:{}", self.wire(), self.hwl, join(self.a.iter(), "_"), join(self.b.iter(), "_"))
     }
     fn same_token(&self, o: &T9) -> bool { self == o }
 }
@@ -562,11 +677,54 @@ fn extract(ml: &MorphemeList<&JapaneseDictionary>, modified: &str) -> Vec<T9> {
             cb, ce, bb, be, wid: m.word_id().as_raw(), ob: m.begin(), oe: m.end(), surface, srange, norm_slice,
             pos: m.part_of_speech().to_vec(), reading: m.reading_form().to_string(), normalized: m.normalized_form().to_string(),
             dict_form: m.dictionary_form().to_string(), headword: m.get_word_info().surface().to_string(), hwl: m.get_word_info().head_word_length(),
+            a: m.get_word_info().a_unit_split().iter().map(|x| x.as_raw()).collect(), b: m.get_word_info().b_unit_split().iter().map(|x| x.as_raw()).collect(),
         }
     }).collect()
 }
 
 fn wire_list(ts: &[T9]) -> String { ts.iter().map(|t| t.wire()).collect::<Vec<_>>().join(",") }
+fn wire_list_full(ts: &[T9]) -> String { ts.iter().map(|t| t.wire_full()).collect::<Vec<_>>().join(",") }
+
+/// the nodes of `prev` (the path before a plugin) that node `t` of the path after it covers exactly
+fn cover<'a>(prev: &'a [T9], t: &T9) -> Option<&'a [T9]> {
+    let i = prev.iter().position(|p| p.cb == t.cb)?;
+    let mut j = i;
+    while j < prev.len() && prev[j].ce < t.ce { j += 1; }
+    if j < prev.len() && prev[j].ce == t.ce { Some(&prev[i..=j]) } else { None }
+}
+
+fn raw_wire(t: &T9) -> String { format!("{}:{}:{}:{}", t.cb, t.ce, t.wid, if W9::is_lex(t.wid) { 0 } else { 1 }) }
+
+/// one final path node with the parts it was joined from, read off the paths between the plugins
+struct Grp<'a> { node: &'a T9, joined_by: Vec<char>, parts: Vec<&'a T9> }
+
+/// grouping of the final path `fin` over the paths `st[0]` (no plugin), `st[1]` (first plugin only); `kinds` = the plugins.
+/// Returns the wire form (`cb:ce:wid:syn` | `N=p+p` | `K@g~g`) and the groups; None when the paths are not nested
+fn group_wire<'a>(st: &'a [Vec<T9>], kinds: &[char], fin: &'a [T9]) -> Option<(String, Vec<Grp<'a>>)> {
+    let g1 = |t: &'a T9, kind: char| -> Option<(String, bool, Vec<&'a T9>)> {
+        let ms = cover(&st[0], t)?;
+        let joined = ms.len() > 1 || ms[0].wid != t.wid;
+        let w = if joined { format!("{}={}", kind, ms.iter().map(raw_wire).collect::<Vec<_>>().join("+")) } else { raw_wire(&ms[0]) };
+        Some((w, joined, ms.iter().collect()))
+    };
+    let mut out = vec![];
+    let mut grps = vec![];
+    for t in fin {
+        match st.len() {
+            0 => { out.push(raw_wire(t)); grps.push(Grp { node: t, joined_by: vec![], parts: vec![t] }); }
+            1 => { let (w, j, ps) = g1(t, kinds[0])?; out.push(w); grps.push(Grp { node: t, joined_by: if j { vec![kinds[0]] } else { vec![] }, parts: ps }); }
+            _ => {
+                let ms = cover(&st[1], t)?;
+                let joined = ms.len() > 1 || ms[0].wid != t.wid;
+                let mut ws = vec![]; let mut by = vec![]; let mut parts = vec![];
+                for m in ms { let (w, j, ps) = g1(m, kinds[0])?; ws.push(w); if j && !by.contains(&kinds[0]) { by.push(kinds[0]); } parts.extend(ps); }
+                if joined { by.push(kinds[1]); out.push(format!("{}@{}", kinds[1], ws.join("~"))); } else { out.push(ws.join("~")); }
+                grps.push(Grp { node: t, joined_by: by, parts });
+            }
+        }
+    }
+    Some((out.join(","), grps))
+}
 
 struct Obs {
     modified: String,
@@ -855,7 +1013,7 @@ fn lookup_case(run: &mut Run, idx: usize, w: &W9, rng: &mut Rng, widx: usize, d6
     let m2o: Vec<usize> = (0..=key.len()).collect();
     let payload = format!("{}{}ls={} sl={} odm={} lex={} b2c={} c2b={} m2o={} nodes={} ce={} be={}", if d6fix { "d6fix=1 " } else { "" }, if lkfix { "lkfix=1 " } else { "" },
         before, sl, mode_char(mode), w.lex_wire, join(b2c.iter(), ","), join(c2b.iter(), ","), join(m2o.iter(), ","), join(found.iter().map(|t| t.wid), ","), nch, key.len());
-    let odpart = od.iter().map(|r| match r { Err(p) if p.starts_with("err ") => "E".to_string(), Err(_) => "P".to_string(), Ok((f, ts)) => format!("{}{}", if *f { "T" } else { "F" }, wire_list(ts)) }).collect::<Vec<_>>().join(";");
+    let odpart = od.iter().map(|r| match r { Err(p) if p.starts_with("err ") => "E".to_string(), Err(_) => "P".to_string(), Ok((f, ts)) => format!("{}{}", if *f { "T" } else { "F" }, wire_list_full(ts)) }).collect::<Vec<_>>().join(";");
     let mut any = false;
     // oracle: the morphemes found carry what the call asked for; their split is the declared one
     let desc = format!("lookup({:?}, subset {}) on a list whose subset was {} ({}), split_into mode {} | world={}", key, sl, before, match stale { Some(b) => format!("it collected the results of a mode-C tokenizer after set_subset({})", b), None => "new list".to_string() }, mode_char(mode), w.desc.join(" "));
@@ -925,12 +1083,24 @@ fn split_case(run: &mut Run, idx: usize, w: &W9, rng: &mut Rng, widx: usize, j: 
             _ => vec![Op::New(Mode::C), Op::Sub(4)],
         };
         (texts[k % texts.len()].to_string(), od, oc)
+    } else if widx == 3 {
+        // numeral compounds with units heading joined runs, katakana compound joined with an OOV neighbour, both plugins
+        let texts = ["二十万円", "二十二", "10１", "アイウ", "東京都二十", "二十万二十アイウ", "十万", "二十", "1０円", "ウアイ", "二十、十万", "二十万", "10,000円", "二十アイ東京都"];
+        let k = j - 2;
+        mode = if k % 2 == 0 { Mode::A } else { Mode::B };
+        let od = match (k / 2) % 4 {
+            0 => vec![Op::New(mode)],
+            1 => vec![Op::New(Mode::C), Op::Md(mode)],
+            2 => vec![Op::New(Mode::C), Op::Sub(4), Op::Md(mode)],          // no normalised form loaded: JoinNumeric sees ""
+            _ => vec![Op::New(mode), Op::Sub(1 | 8)],
+        };
+        (texts[k % texts.len()].to_string(), od, vec![Op::New(Mode::C)])
     } else {
         (gen_text9(rng, w), direct_ops(rng, mode), c_ops(rng))
     };
     run.bump(&format!("mode:{}", mode_char(mode)));
     // about half of the cases run on RECYCLED objects: tokenizer + result list that analysed 1-4 other texts before
-    let recycled = if widx < 3 { j % 2 == 1 } else { rng.chance(1, 2) };
+    let recycled = if widx < N_DIRECTED { j % 2 == 1 } else { rng.chance(1, 2) };
     let (hd, hc, ho) = if recycled {
         (gen_warm(rng, w, &text, opsd.len()), gen_warm(rng, w, &text, opsc.len()), gen_warm(rng, w, &text, 1))
     } else { (Hist::fresh(), Hist::fresh(), Hist::fresh()) };
@@ -983,20 +1153,53 @@ fn split_case(run: &mut Run, idx: usize, w: &W9, rng: &mut Rng, widx: usize, j: 
     };
     let same_paths = wire_list(&pc) == wire_list(&obs.c);
     if !same_paths { run.bump("c-paths-differ-between-subsets(on-demand-not-compared)"); }
+    // the paths BETWEEN the path-rewrite plugins: the same histories on the same binaries loaded with the first 0, 1, ... plugins
+    let mut st_d: Vec<Vec<T9>> = vec![];
+    let mut st_c: Vec<Vec<T9>> = vec![];
+    for sd in &w.stages {
+        match (run_direct(sd, &opsdc, &hd, &text), run_direct(sd, &opsc, &hc, &text)) {
+            (Ok(Ok((a, _, _, _))), Ok(Ok((b, _, _, _)))) => { st_d.push(a); st_c.push(b); }
+            _ => { run.bump("stage-dictionary:failed"); return; }
+        }
+    }
     // on demand, every C morpheme into a cleared list; and all of them into one uncleared list.  Recycled cases: both
     // output lists held the result of other analyses (own input buffer, own nodes) before
     let mut od: Vec<Result<(bool, Vec<T9>), String>> = vec![];
+    // second level: `split_into` of every sub-token the first call returned (units of units are NOT split by one call;
+    // a second call on the unit splits it); and the deprecated `Morpheme::split` (units, or the node itself)
+    let mut od2: Vec<Option<Vec<Result<(bool, Vec<T9>), String>>>> = vec![];
+    let mut dp: Vec<Result<Vec<T9>, String>> = vec![];
     let mut out = MorphemeList::empty(dic);
     if recycled { let _ = catch(|| { let _ = apply_hist(dic, &[Op::New(Mode::C)], &ho, &mut out); }); }
+    let cls = |r: Result<SudachiResult<(bool, Vec<T9>)>, String>| -> Result<(bool, Vec<T9>), String> {
+        match r { Err(p) => Err(p), Ok(Err(e)) => Err(format!("err {}", err_class(&e))), Ok(Ok(x)) => Ok(x) }
+    };
     for i in 0..mlc.len() {
         out.clear();
-        let r = catch(|| mlc.get(i).split_into(mode, &mut out).map(|flag| (flag, extract(&out, &obs.modified))));
-        od.push(match r {
-            Err(p) => Err(p),
-            Ok(Err(e)) => Err(format!("err {}", err_class(&e))),
-            Ok(Ok(x)) => Ok(x),
-        });
+        let r = cls(catch(|| mlc.get(i).split_into(mode, &mut out).map(|flag| (flag, extract(&out, &obs.modified)))));
+        let ok = r.is_ok();
+        od.push(r);
+        if ok {
+            let mut out2 = MorphemeList::empty(dic);
+            let mut lv = vec![];
+            for k in 0..out.len() {
+                out2.clear();
+                lv.push(cls(catch(|| out.get(k).split_into(mode, &mut out2).map(|flag| (flag, extract(&out2, &obs.modified))))));
+            }
+            od2.push(Some(lv));
+        } else { od2.push(None); }
+        #[allow(deprecated)]
+        let r = catch(|| mlc.get(i).split(mode).map(|l| extract(&l, &obs.modified)));
+        dp.push(match r { Err(p) => Err(p), Ok(Err(e)) => Err(format!("err {}", err_class(&e))), Ok(Ok(x)) => Ok(x) });
     }
+    // the stateless route (`StatelessTokenizer::tokenize` -> `into_morpheme_list` -> `from_components`): a rarely used entry
+    // point; must give what a new stateful tokenizer of the mode gives
+    let stateless = catch(|| {
+        use sudachi::analysis::stateless_tokenizer::StatelessTokenizer;
+        use sudachi::analysis::Tokenize;
+        StatelessTokenizer::new(dic).tokenize(&text, mode, false).map(|l| (extract(&l, &obs.modified), l.subset().bits())).map_err(|e| err_class(&e))
+    });
+    let fresh_mode = if matches!(opsd.as_slice(), [Op::New(m)] if *m == mode) && !recycled { None } else { Some(run_direct(dic, &[Op::New(mode)], &Hist::fresh(), &text)) };
     let acc = catch(|| {
         let mut acc = MorphemeList::empty(dic);
         if recycled { let _ = apply_hist(dic, &[Op::New(Mode::A)], &ho, &mut acc); acc.clear(); }
@@ -1013,16 +1216,24 @@ fn split_case(run: &mut Run, idx: usize, w: &W9, rng: &mut Rng, widx: usize, j: 
 
     // ---- correspondence line
     // the byte range of a path node is NOT sent: the model computes it from mod_c2b as resolve_best_path does
-    let pw = |ts: &[T9]| ts.iter().map(|t| format!("{}:{}:{}:{}", t.cb, t.ce, t.wid, if W9::is_lex(t.wid) { 0 } else { 1 })).collect::<Vec<_>>().join(",");
-    let path = format!("{} pathc={}", pw(&pc), pw(&obs.c));
+    // the joined nodes are sent as GROUPS of the nodes they were made from (kind of the plugin + parts); the model builds them
+    // with its `concat_nodes` / `concat_oov_nodes`
+    let (gd, gc) = match (group_wire(&st_d, &w.kinds, &pc), group_wire(&st_c, &w.kinds, &obs.c)) {
+        (Some(a), Some(b)) => (a, b),
+        _ => { run.fail_with_line(idx, &format!("text={:?}", text), "stage-paths-not-nested", &format!("the mode C path with all path-rewrite plugins is not a coarsening of the path with fewer plugins | text={:?}", text)); return; }
+    };
+    let path = format!("{} pathc={}", gd.0, gc.0);
     let payload = format!("{}opsd={} opsc={} odm={} lex={} b2c={} c2b={} m2o={} path={}", if d6fix { "d6fix=1 " } else { "" }, ops_wire(&opsd), ops_wire(&opsc), mode_char(mode), w.lex_wire,
         join(obs.b2c.iter(), ","), join(obs.c2b.iter(), ","), join(obs.m2o.iter(), ","), path);
     let dpart = match &dres {
         Err(_) => "PANIC".to_string(),
         Ok(Err(e)) => format!("err:{}", e),
-        Ok(Ok((ts, bits, m, _))) => format!("{}:{}|{}", bits, mode_char(*m), wire_list(ts)),
+        Ok(Ok((ts, bits, m, _))) => format!("{}:{}|{}", bits, mode_char(*m), wire_list_full(ts)),
     };
-    let odpart = od.iter().map(|r| match r { Err(p) if p.starts_with("err ") => "E".to_string(), Err(_) => "P".to_string(), Ok((f, ts)) => format!("{}{}", if *f { "T" } else { "F" }, wire_list(ts)) }).collect::<Vec<_>>().join(";");
+    let si_wire = |r: &Result<(bool, Vec<T9>), String>| -> String { match r { Err(p) if p.starts_with("err ") => "E".to_string(), Err(_) => "P".to_string(), Ok((f, ts)) => format!("{}{}", if *f { "T" } else { "F" }, wire_list_full(ts)) } };
+    let odpart = od.iter().map(|r| si_wire(r)).collect::<Vec<_>>().join(";");
+    let od2part = od2.iter().map(|x| match x { None => "-".to_string(), Some(lv) => lv.iter().map(|r| si_wire(r)).collect::<Vec<_>>().join("|") }).collect::<Vec<_>>().join(";");
+    let dppart = dp.iter().map(|r| match r { Err(p) if p.starts_with("err ") => "E".to_string(), Err(_) => "P".to_string(), Ok(ts) => wire_list_full(ts) }).collect::<Vec<_>>().join(";");
     let mut split_any = false;
 
     // ---- oracle
@@ -1051,6 +1262,25 @@ fn split_case(run: &mut Run, idx: usize, w: &W9, rng: &mut Rng, widx: usize, j: 
             let oc: BTreeSet<usize> = pc.iter().flat_map(|t| [t.ob, t.oe]).collect();
             let odb: BTreeSet<usize> = d.iter().flat_map(|t| [t.ob, t.oe]).collect();
             if !oc.is_subset(&odb) { fails.push(("refine:bytes".into(), format!("mode C original-text boundaries {:?} not all among mode {} boundaries {:?}", oc, mode_char(mode), odb))); }
+            // tokens made by the path-rewrite plugins (concat_nodes / concat_oov_nodes) are NEW words without units, whatever
+            // their parts declare: unchanged in modes A/B (first sentence), nothing to split on demand (third sentence)
+            for g in &gd.1 {
+                if g.joined_by.is_empty() { continue; }
+                for k in &g.joined_by { run.bump(if *k == 'N' { "joined:by-JoinNumeric(concat_nodes)" } else { "joined:by-JoinKatakanaOov(concat_oov_nodes)" }); }
+                if g.joined_by.len() > 1 { run.bump("joined:by-both-plugins(nested)"); }
+                if g.parts.len() == 1 { run.bump("joined:single-node(normalised-only)"); }
+                if w.declared(g.parts[0].wid, mode).len() >= 2 { run.bump("joined:HEAD-declares-units-in-the-mode"); }
+                if g.parts.iter().skip(1).any(|p| w.declared(p.wid, mode).len() >= 2) { run.bump("joined:later-part-declares-units-in-the-mode"); }
+                if g.parts.len() > 1 && w.declared(g.parts[g.parts.len() - 1].wid, mode).len() >= 2 { run.bump("joined:LAST-part-declares-units-in-the-mode"); }
+                if g.parts.iter().any(|p| (p.wid >> 28) == 15) { run.bump("joined:with-an-OOV-part"); }
+                if g.parts.iter().any(|p| (p.wid >> 28) >= 1 && (p.wid >> 28) < 15) { run.bump("joined:with-a-user-dictionary-part"); }
+                let what = format!("token chars {}..{} (word id {:#x}) joined by {:?} from words {:?}", g.node.cb, g.node.ce, g.node.wid, g.joined_by, g.parts.iter().map(|p| format!("{:#x}", p.wid)).collect::<Vec<_>>());
+                if !g.node.a.is_empty() || !g.node.b.is_empty() { fails.push(("joined:carries-units".into(), format!("{} carries split units A {:?} B {:?}: a joined token is a new word that declares none", what, g.node.a, g.node.b))); }
+                if W9::is_lex(g.node.wid) { fails.push(("joined:keeps-a-dictionary-id".into(), format!("{} still has the id of a dictionary word", what))); }
+                if !d.iter().any(|x| x.cb == g.node.cb && x.ce == g.node.ce && x.wid == g.node.wid && x.bb == g.node.bb && x.be == g.node.be) {
+                    fails.push(("joined:split-in-mode".into(), format!("{} is not a token of mode {}: {:?}", what, mode_char(mode), d.iter().map(|x| x.wire()).collect::<Vec<_>>())));
+                }
+            }
             // walk: every C token is either unchanged or replaced by its declared units
             let mut k = 0usize;
             for (ci, t) in pc.iter().enumerate() {
@@ -1076,6 +1306,13 @@ fn split_case(run: &mut Run, idx: usize, w: &W9, rng: &mut Rng, widx: usize, j: 
                     }
                     let widths: BTreeSet<usize> = units.iter().flat_map(|u| u.row.surface.chars().map(|c| c.len_utf8())).collect();
                     if widths.len() > 1 { run.bump("units:mixed-byte-widths"); }
+                    for u in &units {
+                        if u.row.left < 0 { run.bump("units:non-indexed-unit(left-id--1)"); }
+                        let ud = (u.wid >> 28) as usize;
+                        if w.dicts[ud].rows.iter().filter(|r| r.surface == u.row.surface).count() > 1 { run.bump("units:homograph-unit"); }
+                        if w.declared(u.wid, mode).len() >= 2 { run.bump("units:unit-is-itself-a-compound(stays-whole:one-level-only)"); }
+                        if (u.wid >> 28) != (t.wid >> 28) { run.bump("units:unit-of-another-dictionary"); }
+                    }
                     if t.oe - t.ob != t.be - t.bb { run.bump("units:under-length-changing-normalisation"); }
                     let hi = (k + units.len()).min(d.len());
                     let subs = &d[k.min(d.len())..hi];
@@ -1181,10 +1418,65 @@ fn split_case(run: &mut Run, idx: usize, w: &W9, rng: &mut Rng, widx: usize, j: 
             } else {
                 run.bump("ondemand:not-compared(correspondence-only)");
             }
+            // joined tokens of the C list: whatever the subset, nothing is split
+            for (ci, g) in gc.1.iter().enumerate() {
+                if g.joined_by.is_empty() { continue; }
+                run.bump("ondemand:joined-token(must-report-nothing-split)");
+                match od.get(ci) {
+                    Some(Ok((false, subs))) if subs.is_empty() => {}
+                    other => fails.push(("ondemand:joined-token-split".into(), format!("C token {} (chars {}..{}) was joined by {:?} from {} nodes; split_into returned {:?}", ci, g.node.cb, g.node.ce, g.joined_by, g.parts.len(), other.map(|r| r.as_ref().map(|(f, s)| (*f, s.iter().map(|x| x.wire()).collect::<Vec<_>>())).map_err(|e| e.clone()))))),
+                }
+            }
+            // second level: a sub-token returned by split_into is split by a SECOND call exactly like a token of its own
+            if obs.c_subset & c_need == c_need {
+                for (ci, r) in od.iter().enumerate() {
+                    let (subs, lv) = match (r, od2.get(ci)) { (Ok((true, subs)), Some(Some(lv))) => (subs, lv), _ => continue };
+                    if !w.concat_ok(obs.c[ci].wid, mode) { continue; }
+                    for (k, u) in subs.iter().enumerate() {
+                        let units2 = w.declared(u.wid, mode);
+                        match lv.get(k) {
+                            Some(Ok((flag, subs2))) => {
+                                if units2.is_empty() {
+                                    if *flag || !subs2.is_empty() { fails.push(("second-level:none".into(), format!("unit {} of C token {} declares no units but a second split_into returned {} with {} tokens", k, ci, flag, subs2.len()))); }
+                                } else if units2.len() == 1 { run.bump("second-level:one-unit");
+                                } else {
+                                    run.bump("second-level:unit-of-a-unit-split-by-a-second-call");
+                                    if !*flag { fails.push(("second-level:flag".into(), format!("unit {} of C token {} declares {} units; the second split_into returned false", k, ci, units2.len()))); }
+                                    else if w.concat_ok(u.wid, mode) {
+                                        if let Some((kind, what)) = check_units(w, u, subs2, &units2, obs.c_subset == 1023, true) {
+                                            fails.push((format!("second-level:units:{}", kind), format!("unit {} (word {:#x}) of C token {}: {}", k, u.wid, ci, what)));
+                                        }
+                                    }
+                                }
+                            }
+                            Some(Err(p)) => fails.push(("second-level:panic".into(), format!("second split_into of unit {} of C token {} fails: {}", k, ci, p))),
+                            None => {}
+                        }
+                    }
+                }
+            }
+            // the deprecated Morpheme::split: the units split_into gives, or the token itself when it reports false
+            for (ci, r) in od.iter().enumerate() {
+                let exp: Option<Vec<String>> = match r { Ok((true, subs)) => Some(subs.iter().map(|x| x.wire_full()).collect()), Ok((false, _)) => Some(vec![obs.c[ci].wire_full()]), Err(_) => None };
+                let got: Option<Vec<String>> = dp.get(ci).and_then(|x| x.as_ref().ok()).map(|ts| ts.iter().map(|x| x.wire_full()).collect());
+                if exp != got {
+                    fails.push(("deprecated-split".into(), format!("Morpheme::split({}) of C token {} gives {:?}; split_into gives {:?} (expected: its units, or the token itself)", mode_char(mode), ci, got, exp)));
+                    break;
+                }
+            }
+            // the stateless route
+            let reference: Option<&Vec<T9>> = match &fresh_mode { None => Some(d), Some(Ok(Ok((x, _, _, _)))) => Some(x), _ => None };
+            match (&stateless, reference) {
+                (Ok(Ok((ts, bits))), Some(x)) => {
+                    run.bump("stateless-tokenizer:compared");
+                    if ts != x || *bits != 1023 { fails.push(("stateless-vs-stateful".into(), format!("StatelessTokenizer::tokenize(mode {}) gives {:?} (list subset {}); a new StatefulTokenizer of the mode gives {:?}", mode_char(mode), ts.iter().map(|x| x.wire_full()).collect::<Vec<_>>(), bits, x.iter().map(|x| x.wire_full()).collect::<Vec<_>>()))); }
+                }
+                (a, b) => { if !(a.as_ref().map(|x| x.is_err()).unwrap_or(true) && b.is_none()) { fails.push(("stateless-vs-stateful".into(), format!("StatelessTokenizer::tokenize(mode {}) {} while a new StatefulTokenizer of the mode {}", mode_char(mode), if matches!(a, Ok(Ok(_))) { "succeeds" } else { "fails" }, if b.is_some() { "succeeds" } else { "fails" }))); } }
+            }
         }
     }
     let nontrivial = split_any && matches!(dres, Ok(Ok(_)));
-    run.case(idx, "split", &payload, &format!("ok direct={} ls={} od={}", dpart, obs.list_subset, odpart), nontrivial);
+    run.case(idx, "split", &payload, &format!("ok direct={} c={} ls={} od={} dp={} od2={}", dpart, wire_list_full(&obs.c), obs.list_subset, odpart, dppart, od2part), nontrivial);
     if obs.list_subset != obs.c_subset {
         run.fail(idx, "list-subset", &format!("collect_results left the list with subset {} although the tokenizer that made it had {} (split_into reads the units with the list's subset) | {}", obs.list_subset, obs.c_subset, opsdesc));
     }
